@@ -115,6 +115,14 @@ func (gc *primaryGC) gc(ctx context.Context, lowUsePercent int64, timeLimit time
 	vhook.At("mh.gc.cycle.start")
 	gc.reclaimed = 0
 	affectedSet, err := processFreeList(ctx, gc.freeList, gc.primary.basePath, gc.primary.maxFileSize)
+
+	// Remove all files in the affected set from the visited set. This is done
+	// even if processing the freelist was interrupted, because records may
+	// already be marked as deleted. When the freelist is processed again, those
+	// records are skipped and their files are not reported as affected anymore.
+	for fileNum := range affectedSet {
+		delete(gc.visited, fileNum)
+	}
 	if err != nil {
 		if err == context.DeadlineExceeded {
 			return gc.reclaimed, err
@@ -123,10 +131,6 @@ func (gc *primaryGC) gc(ctx context.Context, lowUsePercent int64, timeLimit time
 	}
 
 	vhook.At("mh.gc.after-freelist")
-	// Remove all files in the affected set from the visited set.
-	for fileNum := range affectedSet {
-		delete(gc.visited, fileNum)
-	}
 
 	header, err := readHeader(gc.primary.headerPath)
 	if err != nil {
@@ -420,7 +424,9 @@ func processFreeList(ctx context.Context, freeList *freelist.FreeList, basePath 
 
 		for {
 			if ctx.Err() != nil {
-				return nil, ctx.Err()
+				// Report the files in which records were already marked as
+				// deleted, so that they are visited again.
+				return affectedSet, ctx.Err()
 			}
 			free, err := flIter.Next()
 			if err != nil {
